@@ -11,11 +11,17 @@
    - [merge_reversed_dicts_identities sel rd1 rd2] = Some (index map, merged list);
    - [connected ids s t]: reflexive-transitive closure of "s and t are in ids and share a part of
      strings.Split(_, "|")";
-   - [merge_domb rd1 rd2]: no part occurs in two different entries of the same input list. *)
+   - [merge_domb rd1 rd2]: no part occurs in two different entries of the same input list;
+   - [generate_people_dict_mm lower order morder mm cs]: GeneratePeopleDict (ExactSignatures = false) on a commit
+     list whose last commit has a .mailmap that ParseMailmap turns into the table [mm] of entries
+     (key, (canonical name, canonical e-mail)); [morder] is Go's iteration order over that map ([morder_ok]);
+     [lkey]/[ltoE]/[ltoN] are the lower-cased key / canonical e-mail / canonical name of an entry;
+   - [mm_domb lower mm]: the lower-cased keys are pairwise different and not empty, and a key that is also the
+     canonical e-mail or name of an entry belongs to an entry with the same canonical pair. *)
 From Coq Require Import List ZArith Permutation Sorted.
 From Herc Require Import Plumbing.IdStr Plumbing.Identity Plumbing.IdentityProofs
   Plumbing.IdentityMerge Plumbing.IdentityMergeProofs Plumbing.IdentityMergeMain
-  Plumbing.IdentityMergeTheorems Plumbing.IdentityDomain.
+  Plumbing.IdentityMergeTheorems Plumbing.IdentityDomain Plumbing.IdentityMailmap Plumbing.IdentityMailmapProofs.
 Import ListNotations.
 Local Open Scope Z_scope.
 
@@ -250,3 +256,113 @@ Proof. split; [vm_compute; reflexivity|]. split; [intros l; apply Permutation_re
 (* the witness of F7 lies outside the domain, as it must *)
 Example C16_ex_f7_outside : merge_domb f7_rd1 f7_rd2 = false.
 Proof. exact f7_outside_domain. Qed.
+
+(* ---------- GeneratePeopleDict with a .mailmap (ExactSignatures = false; the exact mode does not read it) ----------
+   "Attached to developer d" = the keys k with PeopleDict[k] = d.  With a mailmap these are lower-cased names and
+   e-mails of commits, lower-cased mailmap keys, and the canonical names / e-mails of the entries that created a
+   developer (C16_mailmap_dict_keys).  A canonicalising entry attaches its key to the developer of its canonical
+   e-mail (else canonical name): C16_mailmap_entries_honoured. *)
+
+(* every mailmap, every iteration order: every author of the list resolves below the number of developers *)
+Theorem C16_mailmap_total : forall lower order morder mm cs dict rev,
+  generate_people_dict_mm lower order morder mm cs = Some (dict, rev) ->
+  forall c, In c cs ->
+  exists d, lookup_author lower false dict c = Some d /\ consume lower false dict c = Z.of_nat d /\
+            (d < length rev)%nat.
+Proof. exact gm_total. Qed.
+Print Assumptions C16_mailmap_total.
+
+(* every mailmap: same e-mail, case-insensitively -> same developer *)
+Theorem C16_mailmap_same_email : forall lower order morder mm cs dict rev,
+  generate_people_dict_mm lower order morder mm cs = Some (dict, rev) ->
+  forall c1 c2, In c1 cs -> In c2 cs -> lower (c_email c1) = lower (c_email c2) ->
+  consume lower false dict c1 = consume lower false dict c2.
+Proof. exact gm_same_email. Qed.
+Print Assumptions C16_mailmap_same_email.
+
+(* every mailmap: where the keys of PeopleDict come from *)
+Theorem C16_mailmap_dict_keys : forall lower order morder mm cs dict rev, morder_ok morder ->
+  generate_people_dict_mm lower order morder mm cs = Some (dict, rev) ->
+  forall k d, sget dict k = Some d -> key_used_mm lower cs mm k = true.
+Proof. exact gm_dict_keys_perm. Qed.
+Print Assumptions C16_mailmap_dict_keys.
+
+(* in the domain: each description is "names|e-mails", both sorted and duplicate-free, and a string is listed
+   iff it is attached to the developer; every developer has a key *)
+Theorem C16_mailmap_description_exact : forall lower order morder mm cs dict rev, order_ok order -> morder_ok morder ->
+  mm_domb lower mm = true ->
+  generate_people_dict_mm lower order morder mm cs = Some (dict, rev) ->
+  forall d, (d < length rev)%nat -> exists ns es,
+    nth d rev [] = join ns ++ bar :: join es /\
+    StronglySorted (leR str_ltb) ns /\ StronglySorted (leR str_ltb) es /\ NoDup ns /\ NoDup es /\
+    (forall k, In k ns \/ In k es <-> sget dict k = Some d) /\
+    (exists k, sget dict k = Some d).
+Proof. exact gm_description. Qed.
+Print Assumptions C16_mailmap_description_exact.
+
+(* in the domain: the key of every entry is attached to the developer of its canonical e-mail or name *)
+Theorem C16_mailmap_entries_honoured : forall lower order morder mm cs dict rev, morder_ok morder ->
+  mm_domb lower mm = true ->
+  generate_people_dict_mm lower order morder mm cs = Some (dict, rev) ->
+  forall e, In e mm ->
+  exists d, sget dict (lkey lower e) = Some d /\
+            (sget dict (ltoE lower e) = Some d \/ sget dict (ltoN lower e) = Some d \/
+             (ltoE lower e = [] /\ ltoN lower e = [])).
+Proof. exact gm_entries_honoured. Qed.
+Print Assumptions C16_mailmap_entries_honoured.
+
+(* no .mailmap (or one without entries) = the function of the first part *)
+Theorem C16_mailmap_none : forall lower order morder cs, morder_ok morder ->
+  generate_people_dict_mm lower order morder [] cs = generate_people_dict lower false order cs.
+Proof. exact gm_no_mailmap. Qed.
+Print Assumptions C16_mailmap_none.
+
+(* FALSE outside the domain (finding "mailmap-overlap"): .mailmap "A <a@x> <k@x>" + "K <k@x> <old@x>", one commit
+   "Zed <K@x>": in one iteration order developer 0 is described as "k|k@x|old@x" while k@x is attached to
+   developer 1; in the other order there is a single developer *)
+Theorem C16_mailmap_description_refuted :
+  exists morder dict rev,
+    morder_ok morder /\
+    generate_people_dict_mm lower_ascii id_order morder wx_mm wx_cs = Some (dict, rev) /\
+    nth 0%nat rev [] = join [wx_k] ++ bar :: join [wx_kx; wx_oldx] /\
+    sget dict wx_kx = Some 1%nat.
+Proof. exact mm_description_refuted. Qed.
+Print Assumptions C16_mailmap_description_refuted.
+
+Theorem C16_mailmap_order_dependent :
+  exists dict1 rev1 dict2 rev2,
+    generate_people_dict_mm lower_ascii id_order (fun l => l) wx_mm wx_cs = Some (dict1, rev1) /\
+    generate_people_dict_mm lower_ascii id_order (@rev _) wx_mm wx_cs = Some (dict2, rev2) /\
+    length rev1 = 1%nat /\ length rev2 = 2%nat.
+Proof. exact mm_order_dependent. Qed.
+Print Assumptions C16_mailmap_order_dependent.
+
+(* the executable statement the replay applies to outputs obtained with a mailmap *)
+Theorem C16_oracle_description_mm_sound : forall lower cs mm dict rev, description_mm_okb lower cs mm dict rev = true ->
+  (forall k d, sget dict k = Some d -> key_used_mm lower cs mm k = true /\ (d < length rev)%nat) /\
+  forall d, (d < length rev)%nat -> exists ns es,
+    nth d rev [] = join ns ++ bar :: join es /\
+    StronglySorted (leR str_ltb) ns /\ StronglySorted (leR str_ltb) es /\ NoDup ns /\ NoDup es /\
+    (forall k, In k ns \/ In k es <-> sget dict k = Some d).
+Proof. exact description_mm_okb_sound. Qed.
+Print Assumptions C16_oracle_description_mm_sound.
+
+(* non-vacuity: the witness is outside the domain; an e-mail-only entry "<p@x> <c@x>" whose addresses are used by
+   nobody but a homonym is inside: developer 0 = "|c@x|p@x" (no name), developer 1 = "al|a@x" *)
+Example C16_ex_mailmap_outside : mm_domb lower_ascii wx_mm = false.
+Proof. exact mm_overlap_outside_domain. Qed.
+
+Definition ex_mm : list (list Z * (list Z * list Z)) := [([99; 64; 120], ([], [112; 64; 120]))].
+Example C16_ex_mailmap :
+  mm_domb lower_ascii ex_mm = true /\
+  generate_people_dict_mm lower_ascii id_order (fun l => l) ex_mm [([65; 108], [97; 64; 120]); ([65; 108], [67; 64; 120])] =
+  Some ([([112; 64; 120], 0%nat); ([99; 64; 120], 0%nat); ([97; 64; 120], 1%nat); ([97; 108], 1%nat)],
+        [[124; 99; 64; 120; 124; 112; 64; 120]; [97; 108; 124; 97; 64; 120]]).
+Proof. split; vm_compute; reflexivity. Qed.
+
+(* ParseMailmap: "P N <p@x> C N <c@x>" gives two entries; a line that ends in ">" without "<" panics *)
+Example C16_ex_parse :
+  parse_mailmap [80; 32; 78; 32; 60; 112; 64; 120; 62; 32; 67; 32; 78; 32; 60; 99; 64; 120; 62; 10; 35; 32; 120; 10] =
+  Some [([99; 64; 120], ([80; 32; 78], [112; 64; 120])); ([67; 32; 78], ([80; 32; 78], [112; 64; 120]))]
+  /\ parse_mailmap [97; 62] = None.
+Proof. split; vm_compute; reflexivity. Qed.
